@@ -132,6 +132,20 @@ def gen_cases(seed, chunk, n, tier):
             pb = rng.choice([None, 0, 1])
             a, b, xa, xb = gen.rand_contractible(rng, sym, fermi=True, static=static, dtype=dtype, keep=keep,
                                                  pending=pending, parities=(pa, pb))
+            if rng.random() < 0.3:
+                # operands that each subsume several odd tensors: label lists (kept in the library's sorted
+                # order, as every reachable list is) whose concatenation contains nested conjugate pairs
+                import symmray as sr
+                La = rng.choice([2, 4] if not a.parity else [1, 3])
+                la = sorted(sr.FermionicOperator(q, dual=rng.random() < 0.3) for q in rng.sample(range(1, 40), La))
+                Lb = rng.choice([0, 2, 4] if not b.parity else [1, 3])
+                m = min(La, Lb, rng.randint(1, 3))
+                lb = sorted([o.dag for o in rng.sample(la, m)] +
+                            [sr.FermionicOperator(q, dual=rng.random() < 0.3)
+                             for q in rng.sample(range(41, 80), Lb - m)])
+                a.modify(oddpos=la)
+                b.modify(oddpos=lb)
+                meta["nested_labels"] = True
             mode = rng.choice(["auto", "fused", "blockwise"])
             entry = rng.choice(["function", "autoray"])
             xa2 = [x - a.ndim if rng.random() < 0.2 else x for x in xa]
